@@ -38,6 +38,8 @@ var largeShapes = map[string][]largeShape{
 	"json": {
 		{"string", func(L int) []byte { return cat([]byte(`"`), rep("a", L), []byte(`"`)) }},
 		{"string-escapes", func(L int) []byte { return cat([]byte(`"`), rep(`\n`, L/2), []byte(`"`)) }},
+		{"string-backslashes", func(L int) []byte { return cat([]byte(`"`), rep(`\\`, L/2), []byte(`"`)) }},
+		{"key-backslashes", func(L int) []byte { return cat([]byte(`{"`), rep(`\\`, L/2), []byte(`":1}`)) }},
 		{"string-unicode-escapes", func(L int) []byte { return cat([]byte(`"`), rep("\\u00e9", L/6), []byte(`"`)) }},
 		{"string-multibyte", func(L int) []byte { return cat([]byte(`"`), rep("€", L/3), []byte(`"`)) }},
 		{"digits", func(L int) []byte { return cat([]byte(`[`), rep("7", L), []byte(`]`)) }},
